@@ -243,4 +243,77 @@ theorem printed_spec (o : ROut) :
     subst hp hc
     rfl
 
+theorem rrun_mem_step (ops : List ROp) : ∀ (st : RState) t, t ∈ rrun st ops → (t.2.2.1, t.2.2.2) = rstep t.1 t.2.1 := by
+  induction ops with
+  | nil => intro st t h; cases h
+  | cons op ops ih =>
+    intro st t h
+    simp only [rrun, List.mem_cons] at h
+    rcases h with rfl | h
+    · rfl
+    · exact ih _ t h
+
+theorem setValue_messages (st : RState) (x : Int) :
+    (∀ v m, REv.progress v m ∈ (setValue st x).2.printed ↔ (x = v ∧ m = st.max ∧ m ≠ 0 ∧ v ≤ m)) ∧
+    ((setValue st x).2.complete = true ↔ (st.max ≤ x ∧ st.completed = false)) ∧
+    (setValue st x).2.events =
+      REv.progress x st.max :: (if (setValue st x).2.complete then [REv.complete] else []) := by
+  refine ⟨?_, ?_, ?_⟩
+  · intro v m
+    simp only [setValue, ROut.printed, ROut.events, List.mem_filter, List.mem_append, List.mem_cons, List.not_mem_nil,
+      or_false, printsMessage]
+    constructor
+    · rintro ⟨h | h, hp⟩
+      · injection h with h1 h2; subst h1 h2
+        simp only [Bool.and_eq_true, bne_iff_ne, ne_eq, decide_eq_true_eq] at hp
+        exact ⟨rfl, rfl, hp.1, hp.2⟩
+      · split at h <;> simp at h
+    · rintro ⟨rfl, rfl, h1, h2⟩
+      exact ⟨.inl rfl, by simp [h1, h2]⟩
+  · simp only [setValue]
+    by_cases h : x < st.max
+    · simp [h]; omega
+    · have : st.max ≤ x := by omega
+      simp [h, this]
+  · simp [setValue, ROut.events]
+
+theorem rstep_messages (st : RState) (op : ROp) :
+    (∀ v m, REv.progress v m ∈ (rstep st op).2.printed ↔ (valueSet st op = some v ∧ m = st.max ∧ m ≠ 0 ∧ v ≤ m)) ∧
+    ((rstep st op).2.complete = true ↔ ∃ v, valueSet st op = some v ∧ st.max ≤ v ∧ st.completed = false) ∧
+    (∀ v, valueSet st op = some v → (rstep st op).2.events =
+      REv.progress v st.max :: (if (rstep st op).2.complete then [REv.complete] else [])) ∧
+    (valueSet st op = none → (rstep st op).2.events = []) := by
+  cases op with
+  | increment =>
+    obtain ⟨a, b, c⟩ := setValue_messages st (st.value + 1)
+    refine ⟨by simpa [rstep, valueSet] using a, by simpa [rstep, valueSet] using b, ?_, by simp [valueSet]⟩
+    intro v hv; simp only [valueSet, Option.some.injEq] at hv; subst hv; exact c
+  | setValue x =>
+    obtain ⟨a, b, c⟩ := setValue_messages st x
+    refine ⟨by simpa [rstep, valueSet] using a, by simpa [rstep, valueSet] using b, ?_, by simp [valueSet]⟩
+    intro v hv; simp only [valueSet, Option.some.injEq] at hv; subst hv; exact c
+  | setComplete =>
+    obtain ⟨a, b, c⟩ := setValue_messages st st.max
+    refine ⟨by simpa [rstep, valueSet] using a, by simpa [rstep, valueSet] using b, ?_, by simp [valueSet]⟩
+    intro v hv; simp only [valueSet, Option.some.injEq] at hv; subst hv; exact c
+  | setMax m => simp [rstep, valueSet, ROut.printed, ROut.events]
+  | reset m => simp [rstep, valueSet, ROut.printed, ROut.events]
+
+theorem reporter_messages (ops : List ROp) :
+    ∀ t ∈ rrun RState.init ops,
+      (∀ v m, REv.progress v m ∈ t.2.2.2.printed ↔
+        (valueSet t.1 t.2.1 = some v ∧ m = t.1.max ∧ m ≠ 0 ∧ v ≤ m)) ∧
+      (t.2.2.2.complete = true ↔ ∃ v, valueSet t.1 t.2.1 = some v ∧ t.1.max ≤ v ∧ t.1.completed = false) ∧
+      t.2.2.2.printed.count REv.complete = (if t.2.2.2.complete then 1 else 0) ∧
+      (∀ v, valueSet t.1 t.2.1 = some v →
+        t.2.2.2.events = REv.progress v t.1.max :: (if t.2.2.2.complete then [REv.complete] else [])) ∧
+      (valueSet t.1 t.2.1 = none → t.2.2.2.events = []) ∧
+      t.2.2.2.printed.Sublist t.2.2.2.events := by
+  intro t ht
+  have hs := rrun_mem_step ops _ t ht
+  have ho : t.2.2.2 = (rstep t.1 t.2.1).2 := by rw [← hs]
+  obtain ⟨a, b, c, d⟩ := rstep_messages t.1 t.2.1
+  rw [← ho] at a b c d
+  exact ⟨a, b, (printed_spec t.2.2.2).1, c, d, List.filter_sublist⟩
+
 end PhyVerif.C19.Lemmas
